@@ -4,6 +4,8 @@ C04 — No lost wake-up: a servable waiting reservation is granted at once.
 import FsVerif.Proofs.PosExtra
 import FsVerif.Proofs.BufExtra
 import FsVerif.Proofs.Fleet
+import FsVerif.Proofs.SlotBind
+import FsVerif.Proofs.CBeltBind
 namespace FsVerif.Props.C04
 open FsVerif PosStore
 
@@ -56,6 +58,32 @@ theorem fleet_get_side {s : FleetStore} (h : FleetStore.ReachD s) (hq : s.b.getQ
   have hi := (FleetStore.reachD_kt h).core
   have := hi.wakeGet hq
   have := hi.bindLe; have := hi.bindEv.length_eq; omega
+
+/-! ### both conveyor stores, retrieval side: in every reachable state (every API call and every kernel event: arrivals at the exit,
+interrupts, resumes, the state machine), whenever a retrieval request is waiting every item at the exit is bound to a granted
+retrieval — no request waits while an unreserved item is available.  (The put side of the conveyors depends on the spacing clock
+and, on the continuous conveyor, on the belt pattern; it is decided by the lock-step correspondence and the C04 judge.) -/
+
+theorem slot_get_side (cfg : SlotCfg) (ops : List SlotBelt.Op) :
+    let s := SlotBelt.run (SlotBelt.init cfg) ops
+    s.getQ ≠ [] → s.ready.length = s.getRes.length := by
+  intro s hq
+  have h : SlotBelt.Bd s := SlotBelt.run_bd ops _ (SlotBelt.init_bd cfg)
+  have := h.wake hq; have := h.le; have := h.ev.length_eq
+  omega
+
+theorem cbelt_get_side (cfg : CCfg) (ops : List CBelt.Op) :
+    let s := CBelt.run (CBelt.init cfg) ops
+    s.getQ ≠ [] → s.ready.length = s.getRes.length := by
+  intro s hq
+  have h : CBelt.Bd s := CBelt.run_bd ops _ (CBelt.init_bd cfg)
+  have := h.wake hq; have := h.le; have := h.ev.length_eq
+  omega
+
+/-- non-vacuity: a retrieval request waits on a slotted conveyor whose two delivered items are both reserved -/
+example : (SlotBelt.run (SlotBelt.init { cap := 2, delay := 1 })
+    [.reservePut 0, .put 0 0 { id := 5 }, .ev, .ev, .ev, .ev, .reservePut 0, .put 0 1 { id := 6 }, .ev, .ev, .ev, .ev,
+     .reserveGet 1, .reserveGet 2, .reserveGet 3]).getQ ≠ [] := by decide +kernel
 
 /-! ### non-vacuity: reachable states in which a request IS waiting (the premises are satisfiable): a full positional store
 with a second space request queued, and a BufferStore whose only item is still in its delay while a retrieval waits -/
